@@ -52,6 +52,14 @@ E2EFails(t) ==
                        LET e == t.got[k]  had == Before(t, k)[e.id] # Absent IN
                        (e.type = "ADD" => ~had) /\ (e.type \in {"REMOVE", "UPDATE", "REPLACE"} => had), "C09:change-kind-inconsistent-with-view"))
 
+\* C08 with backpressure off: a lossy Pull with an include predicate (value is odd) still folds to the
+\* filtered collection (merging happens before the include decision, so the merged change's old value matters)
+E2EIncFails(t) ==
+  IF t.problem # "" \/ ~WellFormed(t) \/ \E k \in 1..Len(t.writeMs) : t.writeMs[k] < 0 THEN {}
+  ELSE If(Fold([i \in 1..NIds(t) |-> Absent], t.got) = [i \in 1..NIds(t) |-> IF t.truth[i] % 2 = 1 THEN t.truth[i] ELSE Absent],
+          "C08:filtered-lossy-view-differs")
+       \cup If(\A k \in 1..Len(t.got) : t.got[k].new = Absent \/ t.got[k].new % 2 = 1, "C08:excluded-value-delivered")
+
 BlockingFails(t) ==
   If(t.blocked, "C09:backpressured-write-did-not-wait-for-delivery")
   \cup (IF ~t.blocked THEN {} ELSE
@@ -65,9 +73,10 @@ TimeoutFails(t) ==
 
 Fails(t) ==
   IF t.panic # "" THEN {"C09:panic"}
-  ELSE IF t.problem # "" /\ t.mode # "e2e" THEN {}
+  ELSE IF t.problem # "" /\ t.mode \notin {"e2e", "e2e-inc"} THEN {}
   ELSE CASE t.mode = "stage" -> StageFails(t)
          [] t.mode = "e2e" -> E2EFails(t)
+         [] t.mode = "e2e-inc" -> E2EIncFails(t)
          [] t.mode = "blocking" -> BlockingFails(t)
          [] t.mode = "timeout" -> TimeoutFails(t)
          [] OTHER -> {}
